@@ -147,7 +147,52 @@ def gen(ctx):
                 if lay == "bothF":
                     r = np.asfortranarray(r)
         cases.append((p, r))
+    # volumes of several million voxels with a handful of instances, one of them entirely in the LAST rows in memory order (whatever
+    # is collected block-wise or in passes must see every voxel): an unmatched prediction carrying a reference's label lies there
+    for _ in range(ctx.scale(2, 8)):
+        spec = big_spec(rng)
+        p, r = big_arrays(spec)
+        BIG[id(p)] = spec
+        cases.append((p, r))
     return cases
+
+
+BIG = {}
+
+
+def big_spec(rng):
+    shape = rng.choice([(2304, 2048), (2100, 2100), (172, 160, 160), (4_400_000,), (3, 1_500_000)])
+    dt = rng.choice(["uint8", "uint16", "uint32"])
+    boxes = []          # (which, label, lo, hi)
+    nd = len(shape)
+
+    def box(lo0, h0):
+        lo = [lo0] + [rng.randint(0, max(0, s - 8)) for s in shape[1:]]
+        hi = [min(shape[0], lo0 + h0)] + [min(s, l + rng.randint(2, 6)) for s, l in zip(shape[1:], lo[1:])]
+        return lo, hi
+    # a matched pair near the start
+    lo, hi = box(rng.randint(0, 5), rng.randint(2, 4))
+    boxes.append(("ref", 1, lo, hi)); boxes.append(("pred", rng.choice([1, 3]), lo, hi))
+    # a missed reference with label 2 somewhere in the middle
+    lo, hi = box(shape[0] // 2, 2)
+    boxes.append(("ref", 2, lo, hi))
+    # an unmatched prediction carrying label 2 (a reference's label) entirely inside the last rows
+    lo, hi = box(shape[0] - rng.randint(1, 2), 2)
+    boxes.append(("pred", 2, lo, hi))
+    if rng.random() < 0.5:
+        lo, hi = box(shape[0] - rng.randint(1, 3), 3)
+        boxes.append(("ref", 4, lo, hi))
+    return {"shape": list(shape), "dtype": dt, "boxes": boxes}
+
+
+def big_arrays(spec):
+    pred = np.zeros(spec["shape"], spec["dtype"])
+    ref = np.zeros(spec["shape"], spec["dtype"])
+    for which, lab, lo, hi in spec["boxes"]:
+        a = pred if which == "pred" else ref
+        sl = tuple(slice(int(l), int(h)) for l, h in zip(lo, hi))
+        a[sl] = np.where(a[sl] == 0, lab, a[sl])
+    return pred, ref
 
 
 def run(ctx):
@@ -161,6 +206,8 @@ def run(ctx):
         mname = rng.choice(["IOU", "DSC"])
         thr = rng.choice([0.0, 0.3, 0.5, 0.9])
         case = {"pred": pred, "ref": ref, "matcher": kind, "metric": mname, "threshold": thr}
+        if id(pred) in BIG:
+            case = {"large": BIG[id(pred)], "matcher": kind, "metric": mname, "threshold": thr}
         try:
             M, out = run_matcher(kind, mname, thr, pred, ref)
         except Exception as e:  # noqa
@@ -173,7 +220,7 @@ def run(ctx):
         bad = oracle(pred, ref, M, out)
         if bad:
             ctx.violation("relabelling does not preserve the segmentations: " + "; ".join(bad[:3]),
-                          {**case, "matching": M, "relabelled": out.prediction_arr})
+                          {**case, "matching": M, **({} if "large" in case else {"relabelled": out.prediction_arr})})
         if pred.size <= 400:
             arr = [[int(a), int(b)] for a, b in zip(ref.ravel().tolist(), pred.ravel().tolist())]
             mod_in.append([[[p, r] for p, r in M.items()], arr])
@@ -193,10 +240,15 @@ def run(ctx):
 def replay(path):
     common.serial_pool()
     d = json.loads(open(path).read())
-    pred, ref = common.arr_from_json(d["pred"]), common.arr_from_json(d["ref"])
+    if "large" in d:
+        pred, ref = big_arrays(d["large"])
+        print("large volume", d["large"]["shape"], d["large"]["dtype"], "boxes (array, label, lo, hi):", d["large"]["boxes"])
+    else:
+        pred, ref = common.arr_from_json(d["pred"]), common.arr_from_json(d["ref"])
     M, out = run_matcher(d["matcher"], d["metric"], d["threshold"], pred, ref)
     print("matching pred->ref:", M)
-    print("relabelled prediction:", out.prediction_arr.tolist(), out.prediction_arr.dtype)
+    if "large" not in d:
+        print("relabelled prediction:", out.prediction_arr.tolist(), out.prediction_arr.dtype)
     bad = oracle(pred, ref, M, out)
     print("violations:", bad)
     return 1 if bad else 0
